@@ -34,7 +34,9 @@ Inductive event :=
   | EvX11 (granted : bool)            (* Channel.request_x11; the server answered SUCCESS / FAILURE *)
   | EvAgent                           (* Channel.request_forward_agent (no reply is awaited) *)
   | EvForward (active granted : bool) (* Transport.request_port_forward *)
-  | EvCancel (active : bool).         (* Transport.cancel_port_forward *)
+  | EvCancel (active : bool)          (* Transport.cancel_port_forward *)
+  | EvOther (granted : bool).         (* any other Transport.global_request(kind, wait=True): leaves a
+                                         granted / denied response behind, installs nothing *)
 
 Definition step (h : handlers) (e : event) : handlers :=
   match e with
@@ -45,6 +47,7 @@ Definition step (h : handlers) (e : event) : handlers :=
   | EvForward _ _ => h                                (* SSHException before the assignment *)
   | EvCancel true => mkH (h_agent h) (h_x11 h) false
   | EvCancel false => h                               (* `if not self.active: return` *)
+  | EvOther _ => h
   end.
 
 Definition handlers_after (hist : list event) : handlers := fold_left step hist no_handlers.
@@ -124,7 +127,8 @@ Definition event_of_code (c : Z) : event :=
   if c =? 0 then EvX11 true else if c =? 1 then EvX11 false else if c =? 2 then EvAgent
   else if c =? 3 then EvForward true true else if c =? 4 then EvForward true false
   else if c =? 5 then EvForward false true else if c =? 6 then EvForward false false
-  else if c =? 7 then EvCancel true else EvCancel false.
+  else if c =? 7 then EvCancel true else if c =? 8 then EvCancel false
+  else if c =? 9 then EvOther true else EvOther false.
 
 (* (server_mode, kind, want_reply, srv_ok) -> [consulted; reply type or -1] *)
 Definition run_global (c : bool * list Z * bool * bool) : list Z :=
